@@ -10,6 +10,7 @@ CONSTANTS
   TimeoutsK = {2}
   MaxOpens = 1
   EnvEdits = TRUE
+  MidRun = "no"
 CONSTRAINT WitnessAcc
 POSTCONDITION WitnessReport
 CHECK_DEADLOCK FALSE
